@@ -23,6 +23,20 @@ if [ -f "$src/demo.sh" ]; then
     git checkout -q -- .
     sh /tmp/confirm_demo.sh "$W" >"/tmp/confirm_without.out" 2>&1; demo_without=$?
 fi
+if [ "$demo" = none ] && [ -f "$src/demo_test.rs" ]; then
+    # integration-test style demonstration: the header names the file to create and the test to run
+    rel=$(grep -oE '[a-z-]+/tests/[A-Za-z0-9_]+\.rs' "$src/demo_test.rs" | head -1)
+    if [ -n "$rel" ]; then
+        demo=demo_test.rs
+        crate=${rel%%/*}; tname=$(basename "$rel" .rs)
+        mkdir -p "$(dirname "$W/$rel")"; cp "$src/demo_test.rs" "$W/$rel"
+        cargo test -p "$crate" --offline --test "$tname" >/tmp/confirm_with.out 2>&1; demo_with=$?
+        git checkout -q -- .
+        mkdir -p "$(dirname "$W/$rel")"; cp "$src/demo_test.rs" "$W/$rel"
+        cargo test -p "$crate" --offline --test "$tname" >/tmp/confirm_without.out 2>&1; demo_without=$?
+        rm -f "$W/$rel"; rmdir "$(dirname "$W/$rel")" 2>/dev/null
+    fi
+fi
 git checkout -q -- . ; git clean -fdq -e target
 mkdir -p "$dest"
 cp "$src/patch.diff" "$dest/"
@@ -36,7 +50,7 @@ meta={"seed":f"{pid}-{k}","property":pid,
       "demonstration": demo, "demo_exit_with_change": dw, "demo_exit_without_change": dwo,
       "confirmed": ok and demo!="none" and dw not in ("0","-") and dwo=="0",
       "what_it_needs": "see meta.md (written by the seeding agent)",
-      "confirmed_by": "tools/confirm_seed.sh in scratch worktree /tmp/confirm: git apply patch.diff; cargo test --workspace --offline --lib; sh demo.sh (must fail); git checkout; sh demo.sh (must pass)"}
+      "confirmed_by": "tools/confirm_seed.sh in scratch worktree /tmp/confirm: git apply patch.diff; cargo test --workspace --offline --lib; demonstration (sh demo.sh, or demo_test.rs copied to the path its header names and run with cargo test --test) must fail; git checkout; demonstration must pass"}
 json.dump(meta,open(dest+"/meta.json","w"),indent=1)
 print(meta["seed"],"confirmed" if meta["confirmed"] else "NOT CONFIRMED", "tests_ok",ok,"demo",dw,dwo)
 PY
